@@ -282,6 +282,96 @@ def scoping(ctx):
 
 
 # ---------------------------------------------------------------------------------------
+# P2b: a USE statement inside one module procedure is in effect there only
+# ---------------------------------------------------------------------------------------
+USE_O = [("implicit none", ()), ("use other, only: tmod", ("tmod",)), ("USE OTHER, ONLY: TOTHER", ("tother",)), ("use other", ("tmod", "tother"))]
+USE_REFS = [("type(tmod) :: x", "tmod"), ("type(tother) :: x", "tother"), ("TYPE(TOther) :: X", "tother"), ("type(nowhere) :: x", "nowhere")]
+OWN_L = [(("integer :: d0", "integer :: d1", "integer :: d2"), False), (("type tlocal", "integer :: c", "end type tlocal"), True)]
+
+
+def _use_local_files(ua, ub, ra, rb, rz, oa):
+    return {"o.f90": ["module other", "type tmod", "integer :: c", "end type tmod", "type tother", "integer :: c", "end type tother", "end module other"],
+            "m.f90": ["module m", "type tmod", "integer :: c", "end type tmod", rz, "contains",
+                      "subroutine sa()", ua, oa[0], oa[1], oa[2], ra, "end subroutine sa",
+                      "subroutine sb()", ub, rb, "end subroutine sb",
+                      "end module m"]}
+
+
+def use_local_rule(imported, name):
+    """type designated for `name` in a scope that use-associates `imported` from module other and is hosted by module m"""
+    if name in imported:
+        return ("other", name)
+    return ("m", "tmod") if name == "tmod" else None
+
+
+def _observe2b(p):
+    m = [x for x in p.modules if _choice_true(x.name, "m")][0]
+    sa, sb = list(m.subroutines)[:2]
+    def proto(vs):
+        vs = [v for v in vs if _choice_true(v.name, "x")]
+        if len(vs) != 1:
+            return "MISSING"
+        pr = getattr(vs[0], "proto", None)
+        return pr[0] if pr else None
+    return {"sa.x": proto(sa.variables), "sb.x": proto(sb.variables), "m.x": proto(m.variables)}
+
+
+def replay_use_local(w):
+    files = _use_local_files(*w["slots"])
+    p = parserh.project_concrete(files, **SETTINGS)
+    obs = _observe2b(p)
+    got = {k: (list(_res2(v)) if _res2(v) else None) for k, v in obs.items()}
+    return got != w["expected"], {"files": files, "ford": got, "fortran_scoping": w["expected"]}
+
+
+@obligation("C07", "P2b.use-in-procedure-stays-local", engine="SX(CV)", timeout=1800)
+def use_local(ctx):
+    """two sibling module procedures, each with or without a USE of another module (whole / ONLY) that declares a type named like the
+    host's: a name is use-associated only in the procedure holding the USE; the sibling and the host keep their own resolution"""
+    import ford.sourceform as sf
+
+    ctx.encode_fn(sf.FortranCodeUnit.correlate)
+    ctx.encode_fn(sf.FortranVariable.correlate)
+    ctx.stubs.append("FortranReader replaced by the symbolic statement list")
+    ctx.bounds.update({"use forms": len(USE_O), "references": len(USE_REFS), "procedure with/without own type": 2})
+
+    def h(E):
+        ua = CV.choice(E, "ua", USE_O)
+        ub = CV.choice(E, "ub", USE_O)
+        ra = CV.choice(E, "ra", USE_REFS)
+        rb = CV.choice(E, "rb", USE_REFS)
+        rz = CV.choice(E, "rz", USE_REFS)
+        oa = CV.choice(E, "oa", OWN_L)
+        h.state = (ua, ub, ra, rb, rz, oa)
+        p = parserh.project(_use_local_files(ua[0], ub[0], ra[0], rb[0], rz[0], oa[0]), **SETTINGS)
+        obs = _observe2b(p)
+        E.reachable("correlated")
+        want = {"sa.x": choice.apply(use_local_rule, ua[1], ra[1]),
+                "sb.x": choice.apply(use_local_rule, ub[1], rb[1]),
+                "m.x": choice.apply(lambda n: use_local_rule((), n), rz[1])}
+        h.want = want
+        for k in want:
+            E.require(choice.apply(lambda g, w_: _res2(g) == w_, obs[k], want[k]), f"{k}: resolved to the wrong entity")
+
+    E = sym.Engine(ctx, max_paths=50000, incremental=True)
+    found = E.explore(h)
+    seen = set()
+    for (label, m, pc), A in list(zip(found, E.autosnaps)):
+        if label in seen:
+            continue
+        seen.add(label)
+        slots = [choice.value_in_model(m, x)[0] for x in A["state"]]
+        slots[5] = list(slots[5])
+        exp = {k: (list(choice.value_in_model(m, v)) if choice.value_in_model(m, v) else None) for k, v in A["want"].items()}
+        ctx.report(label, {"slots": slots, "expected": exp}, replay_use_local)
+    if E.reached.get("correlated"):
+        ctx.twins += 1
+    else:
+        ctx.inconclusive.append("vacuity: correlate never completed")
+    ctx.sample({"paths": E.paths})
+
+
+# ---------------------------------------------------------------------------------------
 # P3: USE statements in nested scopes; entities reached through a re-exporting module
 # (depends on modules being correlated in dependency order whatever scope holds the USE)
 # ---------------------------------------------------------------------------------------
